@@ -247,6 +247,11 @@ def task_oracle(funcs, latencies=None):
             return ("err", b[1][n - 1], "boom") if n <= len(b[1]) else ("ok", {"after": n})
         if b[0] == "silent":
             return ("silent",)
+        if b[0] == "delay_by":   # wrap after payload[b[1]] virtual seconds
+            return ("ok", {"fn": fn, "in": payload}, {"latency": payload.get(b[1], 0) if isinstance(payload, dict) else 0})
+        if b[0] == "fail_if":    # fails when payload[b[1]] % 2 == b[2], echoes otherwise
+            v = payload.get(b[1]) if isinstance(payload, dict) else None
+            return ("err", "Odd.Item", "boom") if isinstance(v, int) and v % 2 == b[2] else ("ok", payload)
         if b[0] == "slow":       # echo after b[1] virtual seconds
             return ("ok", payload, {"latency": b[1]})
         if b[0] == "seq":        # explicit outcome sequence, last one repeats
